@@ -119,7 +119,8 @@ impl<'a> FciBuilder<'a> for FirBuilder {
 impl RtcpPacketWriter for FirBuilder {
     fn calculate_size(&self) -> Result<usize, RtcpWriteError> {
         let entries = self.ssrc_seq.len();
-        if entries > u16::MAX as usize / 2 - 2 {
+        // 3 words of headers, 2 words per entry, at most u16::MAX + 1 words
+        if entries > (u16::MAX as usize - 2) / 2 {
             return Err(RtcpWriteError::TooManyFir);
         }
         Ok(entries * 2 * 4)
